@@ -305,6 +305,11 @@ func (g *Gen) podAnnotations(cfg *Config) map[string]string {
 	if g.OptOuts {
 		optW = 3
 	}
+	if p(1, 10) {
+		// class annotations are interpreted by the cache itself (it queues a class for the container when it is inserted),
+		// whether or not RDT / block I/O control is enabled
+		ann[g.annKey(sysgen.Pick(g.R, []string{"rdtclass", "blockioclass"}), ctr())] = sysgen.Pick(g.R, []string{"gold", "silver", "besteffort"})
+	}
 	if p(1, optW) {
 		ann[g.annKey("cpu.preserve", ctr())] = "true"
 	}
@@ -532,6 +537,9 @@ func (g *Gen) CreateStep(r *Runner, podKey string) *Step {
 		} else {
 			s.MemReq = int64(g.R.Range(16, 512)) << 20
 		}
+	}
+	if s.MemLim > 0 && g.R.Chance(1, 5) {
+		s.Swap = 2 * s.MemLim // swap-enabled node: the memory+swap limit differs from the memory limit
 	}
 	// Containers that are opted out keep a pre-existing pinning: give those a non-empty one.
 	cpuPres, _ := EffAnn(p, name, "cpu.preserve."+nsKey)
